@@ -195,6 +195,8 @@ var smallDump []byte
 func replayFormat(args []string) int {
 	op := parseOpts(args)
 	cuts := op.str("cuts", "") != ""
+	cutsOf := op.int("cutsof", 1) // the cuts of one case in `cutsof` only (by content): the quick tier's share of the large dumps
+	seed := op.int("seed", 1)
 	s := newSummary("format")
 	if smallDump == nil {
 		_, smallDump = parseAndRun([]byte("def a \"n\" { f = 1.5 }\nprint \"s\" + 2\n"), "small")
@@ -341,7 +343,7 @@ func replayFormat(args []string) int {
 				s.bad("the loaded program differs from the parsed one", shape, raw, map[string]any{"parsed": trimObs(want), "loaded": trimObs(got)}, true)
 				return
 			}
-			if cuts {
+			if cuts && thinKeep(raw, cutsOf, seed) {
 				checkCuts(raw, dump)
 			}
 		}
